@@ -86,7 +86,9 @@ class C13(BaseCheck):
           'builder (ASCII / non-ASCII / long client ids, per-call deadlines) against the simulated peer, whose '
           'independent decoder must recover client id, deadline, empty dst/dtab and the call from every frame '
           'actually written, and exactly one Tdiscarded per unanswered call that timed out (several in the same '
-          'instant), naming its tag. non-trivial = at least one frame decoded; distinct by (kind, '
+          'instant), naming its tag; in half of the wire cases three large requests are written back to back '
+          'from 29 s after the open, each blocked 4.4 s behind a partial frame, so that the periodic ping comes due '
+          'while a frame is half written. non-trivial = at least one frame decoded; distinct by (kind, '
           'string classes present, tag classes, reply kinds)')
   ANCHORS = ('scales.thriftmux.serializer:MessageSerializer._WriteContext',
              'scales.thriftmux.serializer:MessageSerializer._Marshal_Tdiscarded',
@@ -96,7 +98,7 @@ class C13(BaseCheck):
   REQUIRED_ANCHORS = ANCHORS
   REQUIRED_CLASSES = ('headers', 'ctx:ascii', 'ctx:utf8', 'ctx:empty', 'ctx:long', 'ctx:none',
                       'deadline', 'client-id', 'reply:OK', 'reply:ERROR', 'reply:NACK', 'reply:Rerr',
-                      'reply:BAD_Rerr', 'tdiscarded', 'wire', 'wire:requests-while-opening', 'wire:simultaneous-discards')
+                      'reply:BAD_Rerr', 'tdiscarded', 'wire', 'wire:requests-while-opening', 'wire:simultaneous-discards', 'wire:stalled-across-ping')
   ASSUMPTIONS = ('context keys/values are text; encoded length of each <= 32767 bytes (int16 length field)',
                  'deadline context = (whole-second wall-clock timestamp in ns, absolute deadline in ns), '
                  'deadline compared with 1us tolerance for the float->ns conversion')
@@ -456,10 +458,46 @@ class C13(BaseCheck):
       out.obligations += 1
       if d['frame_tag'] != 0 or not d['why']:
         out.violate('wire:discard-frame', 'Tdiscarded frame with tag %r and reason %r' % (d['frame_tag'], d['why']), {})
+    # stalled writes across the ping period: from 29 s after the connection opened three large
+    # requests are written back to back, each blocked for 4.4 s behind a partial frame; the periodic
+    # ping (due 30-40 s after the open) therefore comes due while a frame is half written.  The
+    # byte stream must stay a sequence of whole frames (the ping waits its turn).
+    stalled = False
+    opened = [e['vt'] for e in env.events if e['kind'] == 'net.connect.end' and e.get('result') == 'ok']
+    if opened and idx % 2 == 0 and not srv.bad_frames:
+      stalled = True
+      t_open = opened[0]
+      if env.now < t_open + 29.0:
+        env.run_until(t_open + 29.0)
+
+      def stall(conn, nbytes):
+        return 4.4 if nbytes > 200 else 0.0
+      stall.wants_size = True
+      srv.sim.send_delay = stall
+      n_req0 = len(srv.requests)
+      big = []
+      for k in range(3):
+        big.append(w.call('echo', ('b%d-%s' % (len(w.calls), 'x' * rng.choice([300, 900, 4000])),), timeout=30.0))
+        env.advance(4.4)
+      srv.sim.send_delay = None
+      env.advance(8.0)
+      out.obligations += 2
+      got_big = [q['call'][1][0] for q in srv.requests[n_req0:] if q.get('call') and q['call'][1]]
+      alive = any(not c.client_closed and not c.server_closed for c in srv.sim.conns)
+      if alive and sorted(got_big) != sorted(r['args'][0] for r in big):
+        out.violate('wire:call', 'with writes stalled across the ping period the peer decoded %d of 3 large requests '
+                    'intact on a connection that is still up' % len(set(got_big) & set(r['args'][0] for r in big)), {'stalled': True})
     for bf in srv.bad_frames:
-      out.violate('wire:undecodable', 'the peer\'s independent decoder rejected a frame the client wrote: %r' % (bf,), {})
+      out.violate('wire:undecodable', 'the peer\'s independent decoder rejected a frame the client wrote: %r' % (bf,),
+                  {'stalled': stalled})
     w.close()
     env.advance(0.1)
+    out.classes = ['wire', 'wire:discards'] + (['wire:stalled-across-ping'] if stalled else [])
+    out.classes = out.classes + (['wire:simultaneous-discards'] if len(want) > 1 else [])
+    out.nontrivial = len(srv.requests) > 0
+    out.extra = {'wire_frames': len(srv.requests), 'pings_seen': len(srv.pings)}
+    out.sig = ('wire', client_id[:8], len(sent), stalled)
+    return
     out.classes = ['wire', 'wire:discards'] + (['wire:simultaneous-discards'] if len(want) > 1 else [])
     out.nontrivial = len(srv.requests) > 0
     out.extra = {'wire_frames': len(srv.requests)}
